@@ -2,10 +2,11 @@
 """usage: seedkeep.py <ID> <X> <detected-by ...>  — copy a confirmed sub-agent change into /verif/seeded/<ID>-<X>/ with meta.json.
 Reads the confirmation record from /tmp/seed/verify*.log."""
 import sys, os, json, glob, shutil, re
+SD = os.environ.get('SEEDDIR', '/tmp/seed')
 ID, X = sys.argv[1], sys.argv[2]
 det = sys.argv[3:]
 rec = None
-for f in sorted(glob.glob('/tmp/seed/verify*.log')):
+for f in sorted(glob.glob(SD+'/verify*.log')):
     for l in open(f):
         try:
             d = json.loads(l)
@@ -15,13 +16,13 @@ for f in sorted(glob.glob('/tmp/seed/verify*.log')):
             rec = d
 if not rec or not rec.get('confirmed'):
     print("not confirmed:", rec); sys.exit(1)
-src = f'/tmp/seed/{ID}.out/{X}'
+src = f'{SD}/{ID}.out/{X}'
 dst = f'/verif/seeded/{ID}-{X}'
 os.makedirs(dst, exist_ok=True)
 for fn in ['patch.diff', 'demo_test.go', 'RUN.txt', 'NOTES.md']:
     shutil.copy(os.path.join(src, fn), os.path.join(dst, fn))
 notes = open(os.path.join(src, 'NOTES.md')).read()
-prop = open(f'/tmp/seed/{ID}.out/PROPERTY.txt').readline().strip()
+prop = open(f'{SD}/{ID}.out/PROPERTY.txt').readline().strip()
 meta = {
     "property": ID,
     "property_title": prop,
